@@ -66,8 +66,10 @@ def catalogue(kind):
             oc, ov = valid_child(other, "A", 3)
             F.append(("kind-mismatch-" + other, new_msg(other, [oc]), [("TGT", "A", ov)]))
     F.append(("switch-text-Maybe", new_msg("switch", ['<oneSwitch name="A">Maybe</oneSwitch>'], name="TGT" if k == "switch" else "OTHER"), []))
-    for bad in ("abc", "1e5", "", "1:2:3:4", "--1"):
+    for bad in ("abc", "", "1:2:3:4", "--1", "1e", "1:30e5"):
         F.append(("number-text-%s" % (bad or "empty"), new_msg("number", ['<oneNumber name="A">%s</oneNumber>' % bad]), []))
+    # exponent notation is what printf's %e / %g render: a receiver may take it (as 100000) or refuse it
+    F.append(("number-text-1e5", new_msg("number", ['<oneNumber name="A">1e5</oneNumber>']), [("TGT", "A", 1e5)]))
     # syntactically valid numbers that no float can hold
     F.append(("number-text-huge-int", new_msg("number", ['<oneNumber name="A">%s</oneNumber>' % ("9" * 400)]), []))
     F.append(("number-text-huge-decimal", new_msg("number", ['<oneNumber name="A">%s.5</oneNumber>' % ("9" * 400)]), []))
